@@ -323,9 +323,7 @@ def constructed(a: int, b: int, c: int, data: bytes, flag: bool) -> bool:
         composed = bytes(obj.compose())
         parsed, size = type(obj).parse_immutable(composed)
     except Exception as exc:  # pylint: disable=broad-except
-        if api.tolerated(exc):
-            return True
-        raise
+        return api.escaped(exc)
     reach()
     if size != len(composed):
         api.note('consumed %r of %r' % (size, len(composed)))
